@@ -459,6 +459,13 @@ func checkLockRows(c *Ctx, r *Report, rule string, pkgs []string, rows []LockRow
 			if isFreshObject(root) {
 				continue
 			}
+			// the caller is a closure created (and only called synchronously) while
+			// its creator holds the lock on the captured object
+			if fv, isFV := root.(*ssa.FreeVar); isFV && cs.Caller.Parent() != nil {
+				if closureRunsUnderLock(cs.Caller, fv, mutex, mode, ls) {
+					continue
+				}
+			}
 			// caller itself may be called-with-lock
 			pi := -1
 			for i, p := range cs.Caller.Params {
